@@ -490,7 +490,7 @@ impl<'a> Hist<'a> {
     fn new_handle(&mut self, q: usize) -> usize {
         let h = self.next_h;
         self.next_h += 1;
-        self.ops.push(Op::New { h, q });
+        self.ops.push(Op::New { h, q, gap_ms: 0 });
         h
     }
     /// An answer-requesting operation that is safe for the query's class under this time model.
@@ -609,8 +609,42 @@ pub fn gen_scenario(family: &str, rng: &mut Rng) -> Scenario {
     }
     let allow_diverger = time.step_cost_us >= 5_000;
     let (clauses, queries) = gen_program(rng, &feats, allow_diverger);
-    let history = gen_history(family, rng, &queries, &time);
+    let mut history = gen_history(family, rng, &queries, &time);
+    // the knowledge base grows between queries (a clause for a queried predicate is added before
+    // some query is built): one scenario in four for C22, one in eight otherwise
+    let mut extra_clauses: Vec<Clause> = vec![];
+    let grow = if family == "C22" { rng.chance(1, 4) } else { rng.chance(1, 8) };
+    if grow {
+        let n = rng.range(1, 2);
+        for _ in 0..n {
+            let news: Vec<(usize, usize)> =
+                history.iter().enumerate().filter_map(|(i, op)| if let Op::New { q, .. } = op { Some((i, *q)) } else { None }).collect();
+            if news.is_empty() || history.len() >= 16 {
+                break;
+            }
+            let (at, q) = *rng.pick(&news);
+            let spec = &queries[q];
+            if spec.class != QueryClass::Finite || spec.functor == "mem" {
+                continue;
+            }
+            let args: Vec<Term> = (0..spec.args.len()).map(|_| constant(rng)).collect();
+            let body = if rng.chance(1, 4) { Some(GoalSpec::Print(vec![Term::atom("+")])) } else { None };
+            extra_clauses.push(Clause { functor: spec.functor.clone(), args, body });
+            // before the New of some instance of that query
+            history.insert(at, Op::Assert { c: extra_clauses.len() - 1 });
+        }
+    }
+    // a moment passes between make_query and make_base_node (C23 and C22 families)
+    if family != "C05" {
+        for op in history.iter_mut() {
+            if let Op::New { gap_ms, .. } = op {
+                if rng.chance(1, 6) {
+                    *gap_ms = *rng.pick(&THINK_MS);
+                }
+            }
+        }
+    }
     let sched_seed = rng.next_u64();
     let post_check = rng.chance(1, 3);
-    Scenario { family: family.to_string(), clauses, queries, history, time, sched, sched_seed, post_check, fault_free }
+    Scenario { family: family.to_string(), clauses, queries, extra_clauses, history, time, sched, sched_seed, post_check, fault_free }
 }
